@@ -4,6 +4,7 @@
 package harness
 
 import (
+	"strconv"
 	"encoding/json"
 	"fmt"
 	"os"
@@ -496,6 +497,20 @@ func workerMain(t *testing.T) {
 			knownSigs[k] = true
 		}
 	}
+	// memory watchdog: one run that allocates without bound must not take the machine (and the other workers) down.
+	// The process gives up (exit 86); the driver skips the run it was in and records it.
+	hardMB := envInt("VERIF_HARD_MB", 5000)
+	go func() {
+		for {
+			time.Sleep(250 * time.Millisecond)
+			var ms runtime.MemStats
+			runtime.ReadMemStats(&ms)
+			if ms.HeapAlloc > uint64(hardMB)<<20 {
+				fmt.Fprintf(os.Stderr, "MEMORY-WATCHDOG: heap %d MiB > %d MiB in run %d of %s\n", ms.HeapAlloc>>20, hardMB, curRunIndex, propID)
+				os.Exit(86)
+			}
+		}
+	}()
 	res := &WorkerResult{Property: propID, Tier: tier, Seed: seed, Worker: wi, Faults: map[string]int64{}, Probes: map[string]int64{}, Variants: map[string]int{},
 		Rule: p.Rule, Real: p.Real, Stub: p.Stub, Assumptions: p.Assumptions}
 	t0 := time.Now()
@@ -507,12 +522,15 @@ func workerMain(t *testing.T) {
 		if time.Since(t0) > budget {
 			break
 		}
-		if res.Runs%32 == 31 {
+		if res.Runs%8 == 7 {
 			var ms runtime.MemStats
 			runtime.ReadMemStats(&ms)
 			if ms.HeapAlloc > uint64(memMB)<<20 {
 				break // ask the driver to recycle this process
 			}
+		}
+		if outPath != "" {
+			os.WriteFile(outPath+".cur", []byte(strconv.Itoa(idx)), 0644) // the driver skips this run if the process is lost in it
 		}
 		runSeed := simrt.Mix(seed, propID, uint64(idx))
 		curRunIndex, curBaseSeed = idx, seed
